@@ -7,9 +7,9 @@ add("C19", "model_checking",
     "DESIGN.md 6 (C19), 5.3")
 
 add("C20", "model_checking",
-    "explicit TLA+ specification of the loader (ModLoad.tla) model-checked with TLC against the ordering contract (ModLoadContract.tla), bound to src/module.c by running every case on the real daemon with stub modules (four variants: optional module_post_init / module_destructor present or absent) and validating each event log with TLC (ModLoadTrace.tla)",
-    "TLC model-checks the transcribed loader against the contract for: every dependency graph, listing and missing-module choice on <=3 modules with paired hook profiles for all good cases (quick: 11 887 cases, 2.8e5 states); thorough adds every profile on <=3 modules, every call order, all 4 096 4-module graphs and drawn graphs up to 6 modules (9.0e6 states). The hook profile (which modules lack the optional post-init / destructor) is part of every case. Every case is run on the real daemon (14 372 start-ups quick, 2.3e5 thorough); TLC validates each event log and exit status against the same contract and against the model's prediction (DRIFT). Model mutants (D12, NoPostNoMark, NoDtorNoUnlink) and 8 corrupted real logs are re-checked on every run.",
-    "Exhaustive for the stated bounds on the model. Order requirements are stated over the transitive dependency closure restricted to modules that have the hook. On a bad case a post-init of a module off the cycle that ran before the loop was detected is not blamed. Cyclic 4-module cases run within a time budget (count in the evidence). module_antidepends and module_is_backend are outside the contract.",
+    "explicit TLA+ specification of the loader (ModLoad.tla, with the global loading_module and the per-call prior modelled explicitly) model-checked with TLC against the ordering contract (ModLoadContract.tla), bound to src/module.c by running every case on the real daemon with stub modules (eight variants: each of the optional module_constructor / module_post_init / module_destructor present or absent) and validating each event log with TLC (ModLoadTrace.tla)",
+    "TLC model-checks the transcribed loader against the contract for every dependency graph, listing and missing-module choice on <=3 modules, with the hook profile as part of every case (post-init, destructor, and - for modules that declare nothing - constructor). Quick uses paired post-init/destructor profiles plus every set of constructor-less helpers: 12 795 cases, 3.1e5 states. Thorough adds every profile triple, every call order, all 4 096 4-module graphs and drawn graphs up to 6 modules: 1.0e7 states. Every case is run on the real daemon (15 286 start-ups quick, up to 4.2e5 thorough); TLC validates each event log and exit status against the contract and against the model's prediction (DRIFT). Four model mutants (D12, NoPostNoMark, NoDtorNoUnlink, NoCtorNoRestore) and 12 corrupted real logs are re-checked on every run.",
+    "Exhaustive for the stated bounds on the model. Order requirements relate only events that exist, over the transitive dependency closure restricted to modules that have the hook; a constructor-less dependency counts as constructed once loaded. On a bad case a post-init of a module off the cycle that ran before the loop was detected is not blamed. module_antidepends and module_is_backend are outside the contract.",
     "DESIGN.md 6 (C20), 5.3, 13")
 
 add("C12", "model_checking",
